@@ -30,14 +30,14 @@ m = {
         "guard": "CHARTPARSE_VERIF",
         "enable": "no hooks needed: everything is observed through public attributes, the stored _proximal_bpm_event_index and standard logging handlers",
         "baseline_off_cmd": "cd /repo && /venv/bin/python -m pytest -ra -q -p no:cacheprovider --timeout=900 --continue-on-collection-errors",
-        "source_commits": ["028903f", "9b5729a", "2f3b00f", "198f2c7"],
+        "source_commits": ["028903f", "9b5729a", "2f3b00f", "198f2c7", "e1028e6"],
         "add_only": True,
     },
     "engines": [{"name": "coq", "path": "coq/", "serves_properties": sorted(CLAIMED),
                  "kind_free_text": "Coq 8.16.1 development (logical root CP): executable Gallina model of chartparse, theorems in Properties/, per-run obligations in Tie/ against Gen/Src.v regenerated from /repo by tools/extract.py, and vm_compute correspondence shards in Corr/ written by tools/props/*.py"}],
     "checks": checks,
     "not_applicable": na,
-    "notes": "source_commits are the four 'fix:' commits (genuine defects repaired, see known_findings.json); there are no instrumentation hooks in /repo.",
+    "notes": "source_commits are the five 'fix:' commits (genuine defects repaired, see known_findings.json); there are no instrumentation hooks in /repo.",
 }
 json.dump(m, open(os.path.join(VERIF, "MANIFEST.json"), "w"), indent=1)
 print("MANIFEST: %d checks, %d not_applicable" % (len(checks), len(na)))
